@@ -10,6 +10,10 @@
 #include <stddef.h>
 #include <string.h>
 
+#ifdef CARQUET_VERIF
+#include "core/verif_hook.h"
+#endif
+
 /* ARM hardware CRC32 (when available) */
 #if defined(__aarch64__) || defined(__arm__) || defined(_M_ARM64) || defined(_M_ARM)
 extern uint32_t carquet_crc32_arm(const uint8_t* data, size_t length);
@@ -42,6 +46,9 @@ static volatile int crc32_tables_initialized = 0;
 
 static void crc32_init_tables(void) {
     if (crc32_tables_initialized) return;
+#ifdef CARQUET_VERIF
+    CARQUET_VERIF_EVENT(CARQUET_VERIF_INIT_BEGIN, crc32_tables, 1, 0);
+#endif
 
     /* Generate base table (standard reflected CRC32) */
     for (int i = 0; i < 256; i++) {
@@ -62,6 +69,9 @@ static void crc32_init_tables(void) {
         }
     }
 
+#ifdef CARQUET_VERIF
+    CARQUET_VERIF_EVENT(CARQUET_VERIF_INIT_PUBLISH, crc32_tables, 1, 0);
+#endif
     crc32_tables_initialized = 1;
 }
 
